@@ -7,6 +7,7 @@ import (
 	"fmt"
 	"os"
 	"strings"
+	"sync"
 	"testing"
 	"time"
 
@@ -33,10 +34,14 @@ func TestMain(m *testing.M) {
 		"remove-last + add of a different group at the same height, clean restart, crash at the n-th store write inside an add / a remove followed by restart. " +
 		"After every operation the whole observable state (LastGroup, Count, predecessor walk, Iterator, height index up to count+3, by-id lookups of listed and " +
 		"removed groups, GetSyncGroupsById / GetSyncGroupsByHeight) is compared with a model slice. non-trivial = history with >=1 remove followed later by an " +
-		"add of a different group; distinct by the operation trace")
+		"add of a different group; distinct by the operation trace. Second family 'two concurrent group-chain operations': AddGroup(X) (valid next / parent = last / " +
+		"wrong predecessor / predecessor = second last / unknown parent) runs in a goroutine and is parked inside the consensus CheckGroup call (the point where a node " +
+		"spends time outside any lock) while Y (add of a sibling, of the same group, of a child of X, remove-last, remove + add of a different group) runs to completion; " +
+		"X is released and joined; results and store must equal SOME sequential order of X and Y's steps, also after a restart. non-trivial there = X was parked and Y " +
+		"moved the tip meanwhile; distinct by (chain length, X kind, Y kind) sequence")
 	stats.Assume("consensus CheckGroup is stubbed to true (group signature / membership validity is C13-C16's subject); group ids are 32-byte values as produced by consensus")
 	stats.Assume("crash model: a prefix of whole LevelDB write operations reaches the disk (LevelDB's own atomicity/ordering trusted); the sqlite group index is a derived cache and not asserted")
-	stats.Assume("AddGroup / remove are serialised by the chain lock; concurrent schedules are not explored")
+	stats.Assume("concurrency: only the interleaving 'one AddGroup sits in CheckGroup while one other add/remove sequence completes' is explored (the harness owns it through the stub helper's hook); other schedules are not")
 	stats.Main(m, "C19")
 }
 
@@ -629,6 +634,8 @@ func TestGroupChainHistories(t *testing.T) {
 				nth := int64(rapid.IntRange(1, 6).Draw(t, "crashAtWrite"))
 				if !learnt {
 					nth = 99 // nothing known about this operation yet: let it complete, then restart
+				} else {
+					nth = (nth-1)%(w+1) + 1 // every write of the operation and "just after it" equally likely
 				}
 				if knownB && learnt && nth > 1 && nth <= w {
 					// F-C19-b: a crash strictly inside the write sequence is the recorded defect
@@ -654,6 +661,9 @@ func TestGroupChainHistories(t *testing.T) {
 				dropped := db.VerifDisarm()
 				total := db.VerifWriteCount() - w0
 				trace = append(trace, fmt.Sprintf("%s crash@%d (writes %d, dropped %d)", action, nth, total, dropped))
+				if learnt {
+					stats.Class(fmt.Sprintf("crash_%s_at_write_%d_of_%d", op, nth, total))
+				}
 				after := before.clone()
 				if op == "add" {
 					after.add(g)
@@ -732,6 +742,296 @@ func min(a, b int) int {
 		return a
 	}
 	return b
+}
+
+// ---------------------------------------------------------------- two concurrent operations
+
+type cop struct {
+	kind string // "add" | "remove"
+	g    *mgroup
+}
+
+func (o cop) String() string {
+	if o.kind == "remove" {
+		return "remove-last"
+	}
+	return "add " + o.g.name
+}
+
+// simulate runs ops sequentially on a copy of m by the rules the property's mechanism states:
+// an add succeeds iff the id is not on the chain, the parent is listed and PreGroup is the
+// current last group; remove-last succeeds iff something above the genesis groups is left.
+func simulate(m *model, ops []cop) (*model, []bool) {
+	c := m.clone()
+	var res []bool
+	for _, o := range ops {
+		switch o.kind {
+		case "add":
+			ok := !c.listed(o.g.id) && c.listed(o.g.parent) && bytes.Equal(o.g.pre, c.last().id)
+			if ok {
+				c.add(o.g)
+			} else if !c.listed(o.g.id) {
+				c.dropAbsent(o.g.id)
+				c.absent = append(c.absent, o.g)
+			}
+			res = append(res, ok)
+		case "remove":
+			ok := len(c.list) > c.genesis
+			if ok {
+				c.removeLast()
+			}
+			res = append(res, ok)
+		}
+	}
+	return c, res
+}
+
+const pairTimeout = 20 * time.Second
+
+type addRes struct {
+	err error
+	p   interface{}
+}
+
+// runPair starts AddGroup(x) in a goroutine, parks it inside CheckGroup (if it gets there),
+// runs yops to completion meanwhile, releases and joins x. stuck != "" means a timeout.
+func runPair(x *mgroup, yops []cop) (parked bool, xr addRes, yres []bool, yPanic interface{}, stuck string) {
+	xw := x.wire()
+	parkedCh := make(chan struct{})
+	release := make(chan struct{})
+	var once, relOnce sync.Once
+	doRelease := func() { relOnce.Do(func() { close(release) }) }
+	boot.CheckGroupHook = func(g *types.Group) (bool, error) {
+		if g == xw {
+			once.Do(func() {
+				close(parkedCh)
+				<-release
+			})
+		}
+		return true, nil
+	}
+	xDone := make(chan addRes, 1)
+	yDone := make(chan struct{})
+	joinedX, joinedY := false, true
+	defer func() {
+		doRelease() // never leave the parked goroutine behind
+		if !joinedX {
+			select {
+			case xr = <-xDone:
+			case <-time.After(pairTimeout):
+			}
+		}
+		if !joinedY {
+			select {
+			case <-yDone:
+			case <-time.After(pairTimeout):
+			}
+		}
+		boot.CheckGroupHook = nil
+	}()
+	go func() {
+		var r addRes
+		r.p = safely(func() { r.err = boot.Groups().AddGroup(xw) })
+		xDone <- r
+	}()
+	select {
+	case <-parkedCh:
+		parked = true
+	case xr = <-xDone: // refused (or finished) without reaching CheckGroup
+		joinedX = true
+	case <-time.After(pairTimeout):
+		return parked, xr, nil, nil, "AddGroup(X) neither reached CheckGroup nor returned"
+	}
+	joinedY = false
+	var yr []bool
+	var yp interface{}
+	go func() {
+		defer close(yDone)
+		yp = safely(func() {
+			for _, o := range yops {
+				if o.kind == "remove" {
+					yr = append(yr, core.VerifGroupChainRemoveLast())
+				} else {
+					yr = append(yr, boot.Groups().AddGroup(o.g.wire()) == nil)
+				}
+			}
+		})
+	}()
+	select {
+	case <-yDone:
+		joinedY = true
+		yres, yPanic = yr, yp
+	case <-time.After(pairTimeout):
+		return parked, xr, nil, nil, "operation Y did not finish while AddGroup(X) was parked inside CheckGroup"
+	}
+	doRelease()
+	if !joinedX {
+		select {
+		case xr = <-xDone:
+			joinedX = true
+		case <-time.After(pairTimeout):
+			return parked, xr, yres, yPanic, "AddGroup(X) did not return after its CheckGroup call was released"
+		}
+	}
+	return
+}
+
+func TestConcurrentPairs(t *testing.T) {
+	stats.Check(t, 12, 150, func(t *rapid.T) {
+		n, m := startNode(t.Fatalf)
+		failedBoot := false
+		defer func() {
+			boot.CheckGroupHook = nil
+			if failedBoot {
+				forceDown()
+			}
+			n.Stop()
+		}()
+		seq := 0
+		var trace []string
+		fail := func(format string, a ...interface{}) {
+			t.Helper()
+			t.Fatalf("%s\ntrace: %v", fmt.Sprintf(format, a...), trace)
+		}
+		fresh := func(pre, parent []byte) *mgroup {
+			seq++
+			return newGroup(seq, pre, parent)
+		}
+		// a short sequential prefix
+		for i, k := 0, rapid.IntRange(1, 3).Draw(t, "prefix"); i < k; i++ {
+			g := fresh(m.last().id, m.list[0].id)
+			if err, p := doAdd(g); err != nil || p != nil {
+				fail("prefix add refused: %v %v", err, p)
+			}
+			m.add(g)
+			trace = append(trace, "add "+g.name)
+		}
+		if e := checkState(m, "after the prefix", false); e != nil {
+			fail("%v", e)
+		}
+		rounds := rapid.IntRange(1, 4).Draw(t, "rounds")
+		var keyParts []string
+		interesting := 0
+		for r := 0; r < rounds; r++ {
+			n0 := len(m.list)
+			xKinds := []string{"validNext", "validNext", "validNext", "validParentLast", "wrongPre", "unknownParent"}
+			if n0 >= 2 {
+				xKinds = append(xKinds, "preSecondLast", "preSecondLast")
+			}
+			yKinds := []string{"addSibling", "addSibling", "addSame", "addOnTopOfX"}
+			if n0 > m.genesis {
+				yKinds = append(yKinds, "removeLast", "removeLast", "replace", "replace")
+			}
+			xKind := rapid.SampledFrom(xKinds).Draw(t, "xKind")
+			yKind := rapid.SampledFrom(yKinds).Draw(t, "yKind")
+			last := m.last()
+			var x *mgroup
+			validAlone := false
+			switch xKind {
+			case "validNext":
+				x, validAlone = fresh(last.id, m.list[0].id), true
+			case "validParentLast":
+				x, validAlone = fresh(last.id, last.id), true
+			case "wrongPre":
+				x = fresh([]byte{0xde, 0xad, byte(seq)}, m.list[0].id)
+			case "unknownParent":
+				unk := sha256.Sum256([]byte{0xbe, 0xef, byte(seq)})
+				x = fresh(last.id, unk[:])
+			case "preSecondLast":
+				x = fresh(m.list[n0-2].id, m.list[0].id)
+			}
+			x.name = "X" + x.name
+			var yops []cop
+			switch yKind {
+			case "addSibling":
+				yops = []cop{{"add", fresh(last.id, m.list[0].id)}}
+			case "addSame":
+				yops = []cop{{"add", x}}
+			case "addOnTopOfX":
+				yops = []cop{{"add", fresh(x.id, m.list[0].id)}}
+			case "removeLast":
+				yops = []cop{{"remove", nil}}
+			case "replace":
+				yops = []cop{{"remove", nil}, {"add", fresh(m.list[n0-2].id, m.list[0].id)}}
+			}
+			desc := fmt.Sprintf("len%d X=%s(valid alone %v) || Y=%s", n0, xKind, validAlone, yKind)
+			parked, xr, yres, yPanic, stuck := runPair(x, yops)
+			if stuck != "" {
+				t.Fatalf("VERIF-INCONCLUSIVE concurrent pair timed out (%s): %s\ntrace: %v", desc, stuck, trace)
+			}
+			if xr.p != nil {
+				fail("%s: AddGroup(X) panicked: %v", desc, xr.p)
+			}
+			if yPanic != nil {
+				fail("%s: operation Y panicked: %v", desc, yPanic)
+			}
+			obsX := xr.err == nil
+			trace = append(trace, fmt.Sprintf("{%s parked=%v -> X ok=%v Y ok=%v}", desc, parked, obsX, yres))
+			// every sequential order: X before step p of Y
+			matched := -1
+			var final *model
+			var why []string
+			for p := 0; p <= len(yops); p++ {
+				var ops []cop
+				ops = append(ops, yops[:p]...)
+				ops = append(ops, cop{"add", x})
+				ops = append(ops, yops[p:]...)
+				fm, res := simulate(m, ops)
+				wantX := res[p]
+				wantY := append(append([]bool{}, res[:p]...), res[p+1:]...)
+				if wantX != obsX || fmt.Sprint(wantY) != fmt.Sprint(yres) {
+					why = append(why, fmt.Sprintf("order %v: expects X ok=%v, Y ok=%v", ops, wantX, wantY))
+					continue
+				}
+				if e := checkState(fm, "state", false); e != nil {
+					why = append(why, fmt.Sprintf("order %v: results agree, but %v", ops, e))
+					continue
+				}
+				if matched < 0 {
+					matched, final = p, fm
+				}
+			}
+			if matched < 0 {
+				fail("two concurrent group-chain operations (%s; X was parked inside CheckGroup: %v) ended with X ok=%v (%v), Y ok=%v, and results + store equal no sequential order of them:\n  %s",
+					desc, parked, obsX, xr.err, yres, strings.Join(why, "\n  "))
+			}
+			m = final
+			tipMoved := false
+			for _, ok := range yres {
+				tipMoved = tipMoved || ok
+			}
+			if parked && tipMoved {
+				interesting++
+			}
+			stats.Class("pair_X_" + xKind)
+			stats.Class("pair_Y_" + yKind)
+			stats.Class(fmt.Sprintf("pair_parked_%v_tipMoved_%v", parked, tipMoved))
+			stats.Class(fmt.Sprintf("pair_X_ok_%v", obsX))
+			if matched == 0 {
+				stats.Class("pair_explained_by_X_first")
+			} else {
+				stats.Class("pair_explained_by_Y_first_or_between")
+			}
+			keyParts = append(keyParts, desc)
+			if rapid.IntRange(0, 3).Draw(t, "restartAfterRound") == 0 || r == rounds-1 {
+				if err := n.Restart(); err != nil {
+					failedBoot = true
+					fail("node does not start again after the concurrent pair: %v", err)
+				}
+				trace = append(trace, "restart")
+				if e := checkState(m, "after the restart following "+desc, false); e != nil {
+					fail("%v", e)
+				}
+			}
+		}
+		key := ""
+		if interesting > 0 {
+			key = "pairs:" + strings.Join(keyParts, ";")
+		}
+		stats.Case(key, fmt.Sprintf("pair_rounds_%d", rounds), fmt.Sprintf("pair_tip_moved_while_parked_%d", min(interesting, 3)))
+		stats.Count("concurrent_pairs", int64(rounds))
+		stats.Sample(map[string]interface{}{"family": "concurrent pairs", "trace": trace, "final_chain": m.names()})
+	})
 }
 
 // ---------------------------------------------------------------- probes for recorded findings
